@@ -156,9 +156,9 @@ func selfTest(prop string) map[string]interface{} {
 	defer unlock()
 	sem := make(chan struct{}, 3)
 	var wg sync.WaitGroup
-	// the replay is bounded in time (PLUSH_REPLAY_BUDGET seconds, default 1500): what does not fit is recorded as
+	// the replay is bounded in time (PLUSH_REPLAY_BUDGET seconds, default 600): what does not fit is recorded as
 	// not replayed - the self-test measures the checker, it must not make the check of the tree run for hours
-	budget := 1500 * time.Second
+	budget := 600 * time.Second
 	if v := os.Getenv("PLUSH_REPLAY_BUDGET"); v != "" {
 		if n, err := strconv.Atoi(v); err == nil && n > 0 {
 			budget = time.Duration(n) * time.Second
